@@ -1,15 +1,57 @@
 ---------------------------- MODULE TraceDispatch ----------------------------
 (* Trace validation for C11 (dispatch events), C12 (extension scripts) and C18 (JSON adapter events). *)
-EXTENDS Dispatch, Json, TLC
+EXTENDS DispatchTable, Json, TLC
 Trace == ndJsonDeserialize("trace.ndjson")
-VARIABLES l, bad, desync
-tvars == <<l, bad, desync>>
-TInit == l = 1 /\ bad = <<>> /\ desync = <<>>
+VARIABLES l, bad, desync, xs, mfail
+tvars == <<l, bad, desync, xs, mfail>>
+TInit == l = 1 /\ bad = <<>> /\ desync = <<>> /\ xs = <<0, 0, 0>> /\ mfail = <<>>
+\* ---- C12: extension scripts ----------------------------------------------------------------
+\* ext = abstract extension state of the message under test: slot -> value id (0 = unset)
+XApply(x, op) == CASE op[1] = "set"      -> [x EXCEPT ![op[2]] = op[3]]
+                   [] op[1] = "clear"    -> [x EXCEPT ![op[2]] = 0]
+                   [] op[1] = "clearall" -> [s \in 1..3 |-> 0]
+                   [] OTHER -> x
+ExtOK(x, e) ==                      \* x = the state the model reaches by this step
+  /\ e.st = "ok"
+  /\ e.fnum = 1                     \* ExtensionFieldNumber returned the declared numbers
+  /\ \A s \in 1..3 :
+        /\ e.has[s] = (IF x[s] # 0 THEN 1 ELSE 0)
+        /\ e.rthas[s] = e.has[s]    \* the owning runtime's own HasExtension agrees
+        /\ x[s] # 0 => e.getv[s] = x[s]
+        /\ x[s] = 0 => e.getsame[s] = 1     \* unset: whatever the owning runtime's GetExtension gives
+        /\ e.inb[s] # -1 => e.inb[s] = (IF x[s] # 0 THEN 1 ELSE 0)  \* present in the marshaled bytes iff set
+  /\ {e.rng[i] : i \in 1..Len(e.rng)} = {s \in 1..3 : x[s] # 0} /\ Len(e.rng) = Cardinality({s \in 1..3 : x[s] # 0})
+\* a descriptor of another runtime: Has is false, Get and Set fail, the message is untouched
+\* csproto.Marshal of the message failed or panicked, so "appears in the marshaled bytes" could not be observed
+MarshalFailed(e) == \E s \in 1..3 : e.inb[s] = -1
+ExtMisOK(e) == e.has0 = 1 /\ e.geterr = 1 /\ e.seterr = 1 /\ e.unchanged = 1 /\ e.st # "panic"
+
+\* ---- C18: JSON adapters -------------------------------------------------------------------
+JsonOK(e) ==
+  IF e.dir = "marshal"
+  THEN IF e.nilmsg = 1 THEN e.st = "ok" /\ e.outnil = 1
+       ELSE /\ e.st = "ok" /\ e.valid = 1
+            /\ e.rt1 = 1 /\ e.rt2 = 1                                  \* accepted by the adapter and by the runtime's own decoder, equal message
+            /\ e.hasenum = 1 => e.enumasnum = e.enumnums
+            /\ e.haszero = 1 => e.zeroemitted = e.emitzero
+            /\ (e.indent # 0 /\ e.nonempty = 1) => (e.multiline = 1 /\ e.prefixok = 1)
+            /\ e.indent = 0 => e.multiline = 0
+  ELSE IF e.nilmsg = 1 THEN e.st = "err"
+       ELSE LET accept == (e.unkkey = 1 => e.allowunk = 1) /\ (e.missreq = 1 => (e.isv2 = 1 /\ e.allowpartial = 1)) IN
+            IF accept THEN e.st = "ok" /\ e.eq = 1 ELSE e.st = "err"
+
 TStep == /\ l <= Len(Trace)
          /\ LET e == Trace[l] IN
             /\ l' = l + 1
-            /\ CASE e.c = "disp" -> bad' = (IF ExplainsDispatch(e) THEN bad ELSE Append(bad, l)) /\ UNCHANGED desync
-                 [] OTHER -> desync' = Append(desync, l) /\ UNCHANGED bad
+            /\ CASE e.c = "disp" -> bad' = (IF ExplainsDispatch(e) THEN bad ELSE Append(bad, l)) /\ UNCHANGED <<desync, xs, mfail>>
+                 [] e.c = "extnew" -> xs' = [s \in 1..3 |-> 0] /\ UNCHANGED <<bad, desync, mfail>>
+                 [] e.c = "extop" -> /\ xs' = XApply(xs, e.op)
+                                     /\ bad' = (IF ExtOK(XApply(xs, e.op), e) THEN bad ELSE Append(bad, l))
+                                     /\ mfail' = (IF MarshalFailed(e) THEN Append(mfail, l) ELSE mfail)
+                                     /\ UNCHANGED desync
+                 [] e.c = "extmis" -> bad' = (IF ExtMisOK(e) THEN bad ELSE Append(bad, l)) /\ UNCHANGED <<desync, xs, mfail>>
+                 [] e.c = "json" -> bad' = (IF JsonOK(e) THEN bad ELSE Append(bad, l)) /\ UNCHANGED <<desync, xs, mfail>>
+                 [] OTHER -> desync' = Append(desync, l) /\ UNCHANGED <<bad, xs, mfail>>
 TSpec == TInit /\ [][TStep]_tvars
-Report == l = Len(Trace) + 1 => JsonSerialize("result.json", [n |-> Len(Trace), bad |-> bad, drift |-> <<>>, desync |-> desync])
+Report == l = Len(Trace) + 1 => JsonSerialize("result.json", [n |-> Len(Trace), bad |-> bad, drift |-> <<>>, desync |-> desync, mfail |-> mfail])
 =============================================================================
